@@ -178,7 +178,7 @@ class Reaching:
         return _map_children(e, lambda c: c if (isinstance(c, ast.Name) and c.id in bound) else sub(c, at, depth))
       return _map_children(e, lambda c: sub(c, at, depth))
 
-    out = sub(clone(expr), node, depth)
+    out = fold(sub(clone(expr), node, depth))
     return out, free
 
   def canon(self, node, expr, keep=()):
@@ -189,6 +189,38 @@ class Reaching:
     ta, fa = self.canon(node_a, expr_a)
     tb, fb = self.canon(node_b, expr_b)
     return ta == tb and fa == fb
+
+
+def _cint(e):
+  if e is None:
+    return True, None
+  if isinstance(e, ast.Constant) and isinstance(e.value, int) and not isinstance(e.value, bool):
+    return True, e.value
+  if isinstance(e, ast.UnaryOp) and isinstance(e.op, ast.USub) and isinstance(e.operand, ast.Constant) and isinstance(e.operand.value, int):
+    return True, -e.operand.value
+  return False, None
+
+
+def fold(e):
+  """Constant-fold subscripts of list/tuple literals: [a, b, c][0:2] -> [a, b], (a, b)[1] -> b."""
+  if not isinstance(e, ast.AST):
+    return e
+  e = _map_children(e, fold)
+  if isinstance(e, ast.Subscript) and isinstance(e.value, (ast.List, ast.Tuple)) \
+      and not any(isinstance(x, ast.Starred) for x in e.value.elts):
+    elts = e.value.elts
+    if isinstance(e.slice, ast.Slice):
+      ok1, lo = _cint(e.slice.lower)
+      ok2, hi = _cint(e.slice.upper)
+      ok3, st = _cint(e.slice.step)
+      if ok1 and ok2 and ok3:
+        new = type(e.value)(elts=elts[slice(lo, hi, st)], ctx=ast.Load())
+        return new
+    else:
+      ok, i = _cint(e.slice)
+      if ok and i is not None and -len(elts) <= i < len(elts):
+        return elts[i]
+  return e
 
 
 def _map_children(e, f):
